@@ -136,6 +136,28 @@ def hash_exec(rng):
             g.append(t); t += 1
         groups.append(g[:3]); groups.append([g[3]])
         kinds_of[g[0]] = "table"; kinds_of[g[3]] = "tree"
+    # ordered maps and tables with more bindings and with values WIDER than their keys (16-byte structs), reached by insertion in
+    # different orders and by inserting a superset and removing the surplus (removals of inner nodes)
+    kv = list(range(-30, 90, 7))
+    d, kt = define("I", kv, t); L += d; t += len(kt)
+    d, bt = define("X", blobs(rng, 6), t); L += d; t += len(bt)
+    for wide in (False, True, True):
+        for kind in "RB":
+            n = rng.randint(5, 12)
+            ks = rng.sample(kt, n)
+            pairs = [(k, rng.choice(bt if wide else kt)) for k in ks]
+            surplus = [(k, rng.choice(bt if wide else kt)) for k in kt if k not in ks][:5]
+            g = []
+            for variant in range(3):
+                order = pairs[:] if variant == 0 else rng.sample(pairs, len(pairs))
+                if variant == 2:
+                    order = rng.sample(pairs + surplus, len(pairs) + len(surplus))
+                L.append("V %d %s %d%s" % (t, kind, len(order), "".join(" %d %d" % p for p in order)))
+                if variant == 2:
+                    for (k, _v) in rng.sample(surplus, len(surplus)): L.append("hrem %d %d" % (t, k))
+                g.append(t); t += 1
+            groups.append(g)
+            kinds_of[g[0]] = ("tree" if kind == "R" else "table") + ("-wide" if wide else "-narrow")
     for _ in range(6):
         n = rng.randint(0, 5)
         elems = [rng.choice(it) for _ in range(n)]
@@ -149,6 +171,9 @@ def hash_exec(rng):
         kinds_of[g[0]] = "seq"
     L = [x for x in L if x]
     ops = []
+    for g in groups:
+        if kinds_of.get(g[0], "").startswith(("tree", "table")):
+            for a in g[1:]: ops.append("same %d %d" % (g[0], a))        # built with the same bindings: equal, whatever the history
     for g in groups:
         for a in g: ops.append("hash %d" % a)
         for a in g:
